@@ -1,7 +1,8 @@
 // Binding R for C02 (AEAD Open rejects every input it did not produce).
 //
 // Input (VERIF_CASES): base cases with their full tamper sets enumerated by TLC from
-// spec/AEAD_Tamper.tla (kinds: sealed/sealedff/ad/adext/adtrunc/nonce/key/trunc/ext).  For every
+// spec/AEAD_Tamper.tla (kinds: sealed/sealedff/ad/adext/adtrunc/nonce/key/trunc/ext and the
+// correlated multi-position tag changes tagmask/tagswap).  For every
 // base case the message is sealed by the real code, every tamper is applied, and the real Open is
 // expected to fail, return no plaintext and (ChaCha20-Poly1305) leave no decrypted bytes in the
 // region of dst it would have returned.  Variants: "std"/"x" = chacha20poly1305.New/NewX;
@@ -100,7 +101,7 @@ func (e *env) fail(sig, what string, d map[string]any) {
 }
 
 // apply a tamper to (key, nonce, sealed, ad); ok=false if not applicable
-func apply(tm tamper, key, nonce, sealed, ad []byte) (k, n, s, a []byte, ok bool) {
+func apply(tm tamper, key, nonce, sealed, ad []byte, tagOff int) (k, n, s, a []byte, ok bool) {
 	k, n, s, a, ok = key, nonce, sealed, ad, true
 	switch tm.Kind {
 	case "sealed":
@@ -122,6 +123,22 @@ func apply(tm tamper, key, nonce, sealed, ad []byte) (k, n, s, a []byte, ok bool
 		s = sealed[:len(sealed)-tm.I]
 	case "ext":
 		s = append(append([]byte(nil), sealed...), c03ref.Pat(99, tm.I)...)
+	case "tagmask": // xor with B every tag byte whose index is set in the position mask I
+		s = append([]byte(nil), sealed...)
+		for j := 0; j < 16; j++ {
+			if tm.I>>j&1 == 1 {
+				s[tagOff+j] ^= byte(tm.B)
+			}
+		}
+	case "tagswap": // I = 0: swap the 8-byte halves of the tag; I = 1: rotate it by 4 bytes
+		s = append([]byte(nil), sealed...)
+		sh := 8
+		if tm.I == 1 {
+			sh = 4
+		}
+		for j := 0; j < 16; j++ {
+			s[tagOff+j] = sealed[tagOff+(j+sh)%16]
+		}
 	default:
 		ok = false
 	}
@@ -152,15 +169,19 @@ func (e *env) chacha(c *baseCase) {
 	pt, ad := c03ref.Pat(c.Pseed, c.PtLen), c03ref.Pat(c.Aseed, c.AdLen)
 	sealed := newAEAD(key, x).Seal(nil, nonce, pt, ad)
 	if want := toBytes(c.Sealed); !bytes.Equal(sealed, want) {
-		// Seal itself is wrong: that is C01's verdict; C02 needs an honest baseline
-		e.t.Fatalf("baseline: real Seal differs from the TLC-evaluated output (v=%s pt=%d ad=%d): see C01", c.V, c.PtLen, c.AdLen)
+		// Seal itself differs from the TLC-evaluated RFC 8439 output: that is C01's verdict.  C02 is about what the
+		// real Seal produced, so the real output stays the baseline; the evidence records the discrepancy.
+		n, _ := e.out.Extra["baseline_seal_differs_from_model"].(int)
+		e.out.Extra["baseline_seal_differs_from_model"] = n + 1
 	}
-	// sanity: the untampered message opens
+	// the untampered message must open, otherwise there is no baseline to tamper with (C01's verdict)
 	if back, err := newAEAD(key, x).Open(nil, nonce, sealed, ad); err != nil || !bytes.Equal(back, pt) {
-		e.t.Fatalf("baseline: real Open rejects the untampered message (v=%s pt=%d ad=%d): see C01", c.V, c.PtLen, c.AdLen)
+		n, _ := e.out.Extra["baseline_unusable"].(int)
+		e.out.Extra["baseline_unusable"] = n + 1
+		return
 	}
 	for _, tm := range c.Tampers {
-		k, n, s, a, ok := apply(tm, key, nonce, sealed, ad)
+		k, n, s, a, ok := apply(tm, key, nonce, sealed, ad, len(sealed)-16)
 		if !ok {
 			e.t.Fatalf("unknown tamper kind %q", tm.Kind)
 		}
@@ -294,7 +315,7 @@ func (e *env) nacl(c *baseCase) {
 				atts = append(atts, attempt{"key", func(out, b []byte, n *[24]byte) ([]byte, bool) { return secretbox.Open(out, b, n, k) }})
 			}
 		default:
-			_, n2, s2, _, ok := apply(tm, key, nonce, sealed, nil)
+			_, n2, s2, _, ok := apply(tm, key, nonce, sealed, nil, 0)
 			if !ok || tm.Kind == "ad" || tm.Kind == "adext" || tm.Kind == "adtrunc" {
 				e.t.Fatalf("tamper kind %q not applicable to NaCl", tm.Kind)
 			}
